@@ -2512,5 +2512,212 @@ def cmd_rewrite(args):
 CMDS["rewrite"] = cmd_rewrite
 
 
+
+# ---------------------------------------------------------------------------
+# C18 history independence: fresh-process model + state digests
+
+
+def state_digest():
+    """{name: sha1} over every module-level table a later call reads."""
+    import types
+
+    out = {}
+    mods = [m for n, m in sorted(sys.modules.items()) if n.startswith("xdis.opcodes.opcode_") and m is not None]
+
+    def dump(v, depth=0):
+        if depth > 4:
+            return "<deep>"
+        if isinstance(v, (int, str, bytes, float, bool)) or v is None:
+            return repr(v)
+        if isinstance(v, (list, tuple)):
+            return "[" + ",".join(dump(x, depth + 1) for x in v) + "]"
+        if isinstance(v, (set, frozenset)):
+            return "{" + ",".join(sorted(dump(x, depth + 1) for x in v)) + "}"
+        if isinstance(v, dict):
+            items = []
+            for k, x in v.items():
+                if isinstance(x, (types.FunctionType, types.ModuleType, type)) or callable(x):
+                    items.append(dump(k, depth + 1) + ":<callable %s>" % getattr(x, "__name__", "?"))
+                else:
+                    items.append(dump(k, depth + 1) + ":" + dump(x, depth + 1))
+            return "{" + ",".join(sorted(items)) + "}"
+        return "<%s>" % type(v).__name__
+
+    for m in mods:
+        short = m.__name__.split(".")[-1]
+        for k, v in sorted(vars(m).items()):
+            if k.startswith("__") or k == "loc":
+                continue
+            if isinstance(v, (list, tuple, set, frozenset, dict, int, str)) and not isinstance(v, bool):
+                out["%s.%s" % (short, k)] = sha(dump(v))
+    import xdis.magics as M
+    import xdis.op_imports as OI
+    import xdis.opcodes.base as B
+    import xdis.std as S
+
+    for k in ("magics", "by_magic", "by_version", "magicint2version", "versions", "canonic_python_version"):
+        out["magics." + k] = sha(dump(getattr(M, k)))
+    out["base.fields2copy"] = sha(dump(B.fields2copy))
+    out["op_imports.op_imports"] = sha(dump(dict((str(k), v.__name__) for k, v in OI.op_imports.items())))
+    api = S._std_api
+    for k in ("hasconst", "hasname", "opmap", "opname", "EXTENDED_ARG", "HAVE_ARGUMENT", "python_version_tuple"):
+        out["std._std_api." + k] = sha(dump(getattr(api, k)))
+    out["std._std_api.opc"] = api.opc.__name__
+    return out
+
+
+def run_op(op):
+    """Execute one public operation; return a digest string of its result (+ captured output)."""
+    import random
+
+    from xdis.disasm import disassemble_file, get_opcode
+    from xdis.load import load_module
+    from xdis.op_imports import get_opcode_module
+    from xdis.std import make_std_api
+
+    kind = op["op"]
+    with FdWatch() as w:
+        try:
+            if kind == "load_module":
+                (version, ts, magic_int, co, is_pypy, size, sip) = load_module(op["file"])
+                res = "%r %r %r %r %r %r\n" % (tuple(version), ts, magic_int, is_pypy, size, sip) + tree_render(co, tuple(version[:2]))
+            elif kind == "disassemble_file":
+                buf = io.StringIO()
+                disassemble_file(op["file"], outstream=buf, asm_format=op["fmt"])
+                res = mask_listing(buf.getvalue())
+            elif kind == "get_opcode":
+                res = json.dumps(table_dump(get_opcode(tuple(op["version"]), op.get("pypy", False))), sort_keys=True)
+            elif kind == "get_opcode_module":
+                res = json.dumps(table_dump(get_opcode_module(tuple(op["version"]))), sort_keys=True)
+            elif kind == "make_std_api":
+                api = make_std_api(tuple(op["version"]), op.get("variant")) if op.get("variant") else make_std_api(tuple(op["version"]))
+                res = json.dumps([sorted(api.opmap.items()), list(api.opname), sorted(api.hasconst), sorted(api.hasname),
+                                  api.HAVE_ARGUMENT, api.EXTENDED_ARG, list(api.python_version_tuple)])
+                if op.get("file"):
+                    (version, ts, magic_int, co, is_pypy, size, sip) = load_module(op["file"])
+                    res += "\n" + "\n".join(repr(inst_tuple(i, tuple(version[:2]))) for i in api.get_instructions(co))
+            elif kind == "bytecode":
+                (version, ts, magic_int, co, is_pypy, size, sip) = load_module(op["file"])
+                res = stream_render(co, get_opcode(version, is_pypy), tuple(version[:2]))
+            elif kind == "marsh":
+                import xdis.marsh as xm
+                from vf.gen import values as GV
+
+                v = GV.value(random.Random(op["vseed"]))
+                b = xm.dumps(v)
+                res = C.hexs(b) + " " + json.dumps(C.nan_norm(C.canon(xm.loads(__import__("marshal").dumps(v, 0)), HOSTV, "full")))
+            else:
+                res = "unknown-op"
+        except BaseException as e:
+            if isinstance(e, (KeyboardInterrupt, SystemExit)):
+                raise
+            res = "raises:%s" % type(e).__name__
+    return sha(res.encode("utf-8", "surrogatepass")), w.out, w.err
+
+
+def in_child(fn):
+    """Run fn() in a forked child (a process with exactly the parent's state,
+    i.e. xdis freshly imported and nothing else done) and return its JSON result."""
+    r, wfd = os.pipe()
+    pid = os.fork()
+    if pid == 0:
+        status = 0
+        try:
+            os.close(r)
+            data = json.dumps(fn()).encode("utf-8")
+            with os.fdopen(wfd, "wb") as f:
+                f.write(data)
+        except BaseException:
+            status = 1
+        os._exit(status)
+    os.close(wfd)
+    chunks = []
+    with os.fdopen(r, "rb") as f:
+        chunks.append(f.read())
+    _, st = os.waitpid(pid, 0)
+    if st != 0 or not chunks[0]:
+        return None
+    return json.loads(chunks[0].decode("utf-8"))
+
+
+def cmd_history(args):
+    import warnings
+
+    warnings.simplefilter("ignore")
+    # make sure everything a fresh process has after "import xdis" is loaded before forking
+    import xdis.std  # noqa: F401
+    import xdis.disasm  # noqa: F401
+    import xdis.marsh  # noqa: F401
+
+    acc = Acc()
+    fresh_cache = {}
+
+    def fresh(op):
+        k = json.dumps(op, sort_keys=True)
+        if k not in fresh_cache:
+            fresh_cache[k] = in_child(lambda: list(run_op(op)))
+        return fresh_cache[k]
+
+    def opclass(op):
+        return op["op"] + (":" + op["fmt"] if "fmt" in op else "")
+
+    for hist in args["histories"]:
+        ops, probe = hist["ops"], hist["probe"]
+
+        def child():
+            out = {"state_changes": [], "defaults_growth": []}
+            import xdis.unmarshal as um
+            d0 = len(um.load_code.__defaults__[1]) if isinstance(um.load_code.__defaults__[1], dict) else -1
+            before = state_digest()
+            for op in ops:
+                run_op(op)
+                after = state_digest()
+                if after != before:
+                    ch = sorted(k for k in set(before) | set(after) if before.get(k) != after.get(k))
+                    out["state_changes"].append([opclass(op), ch[:8]])
+                    before = after
+            out["probe1"] = list(run_op(probe))
+            out["probe2"] = list(run_op(probe))
+            after = state_digest()
+            if after != before:
+                ch = sorted(k for k in set(before) | set(after) if before.get(k) != after.get(k))
+                out["state_changes"].append([opclass(probe), ch[:8]])
+            d1 = len(um.load_code.__defaults__[1]) if isinstance(um.load_code.__defaults__[1], dict) else -1
+            out["defaults_growth"] = d1 - d0
+            return out
+
+        got = in_child(child)
+        ref = fresh(probe)
+        acc.evaluations += 1
+        pc = opclass(probe)
+        if got is None:
+            acc.mismatch("C18|history-process-died|probe=%s" % pc, history=[opclass(o) for o in ops])
+            continue
+        if ref is None:
+            acc.count("c18_fresh_reference_unavailable")
+            continue
+        acc.count("c18_state_digest_comparisons", len(ops) + 1)
+        for opn, changed in got["state_changes"]:
+            acc.mismatch("C18|state-changed-by:%s|%s" % (opn, ",".join(c.split(".")[0] + "." + c.split(".")[-1] for c in changed[:3])),
+                         history=[opclass(o) for o in ops], changed=changed)
+        if got["probe1"][0] != ref[0]:
+            acc.mismatch("C18|result-depends-on-history|probe=%s" % pc, history=[json.dumps(o, sort_keys=True)[:120] for o in ops],
+                         probe=probe)
+        if got["probe1"][1:] != ref[1:]:
+            acc.mismatch("C18|output-depends-on-history|probe=%s" % pc, history=[opclass(o) for o in ops], fresh=ref[1:], after=got["probe1"][1:])
+        if got["probe2"] != got["probe1"]:
+            acc.mismatch("C18|repeat-differs|probe=%s" % pc, history=[opclass(o) for o in ops], probe=probe)
+        if got.get("defaults_growth"):
+            acc.count("c18_info_load_code_default_dict_growth", got["defaults_growth"])
+        if len(ops) >= 2:
+            acc.distinct.add(sha([ops, probe]))
+        if len(acc.samples) < 3:
+            acc.sample({"history": [opclass(o) for o in ops], "probe": pc})
+    return acc.result()
+
+
+CMDS["history"] = cmd_history
+
+
 if __name__ == "__main__":
     main()
